@@ -75,6 +75,7 @@ type pkgObs struct {
 	Md5sums   []kv // deb: digest, name
 	Mtree     []mtreeLine
 	SigMembers map[string][]byte
+	Tars      []tarPiece  // every tar stream of the package, decompressed, with whether it must carry the end-of-archive marker
 	cpioEntries []cpioEntry // rpm: the payload archive's entries as this file's own reader finds them
 	Raw       map[string][]byte // raw pieces needed for signatures (deb members, apk control segment, rpm header/payload)
 }
@@ -232,6 +233,35 @@ func sniff(b []byte) string {
 
 // rawTarTypeflags walks the 512-byte blocks of a tar stream and returns the type flag of every header, including
 // the extended headers archive/tar's reader folds into the entry that follows them
+// tarPiece: one tar stream of a package as stored (after decompression)
+type tarPiece struct {
+	Name string
+	Full bool // complete archive (two zero blocks at the end) or an apk segment cut before them
+	B    []byte
+}
+
+// rawTarMembers: typeflag and size of every header block up to the first zero block, by a scan that knows
+// nothing but the block layout (compared with the container model's reader)
+func rawTarMembers(b []byte) (flags []byte, sizes []int64) {
+	for off := 0; off+512 <= len(b); {
+		h := b[off : off+512]
+		if bytes.Equal(h, make([]byte, 512)) {
+			break
+		}
+		size := int64(0)
+		if h[124]&0x80 != 0 {
+			for _, c := range h[125:136] {
+				size = size<<8 | int64(c)
+			}
+		} else {
+			fmt.Sscanf(strings.TrimRight(strings.TrimSpace(string(h[124:136])), "\x00"), "%o", &size)
+		}
+		flags, sizes = append(flags, h[156]), append(sizes, size)
+		off += 512 + int((size+511)/512*512)
+	}
+	return
+}
+
 func rawTarTypeflags(b []byte) []byte {
 	var flags []byte
 	for off := 0; off+512 <= len(b); {
@@ -746,6 +776,7 @@ func decodeDebLike(o *pkgObs, controlTgz, dataTar []byte, dataKind string) error
 	}
 	hasEnd, aligned := tarTrailer(ctl)
 	o.Struct["control_tar_complete"] = hasEnd && aligned
+	o.Tars = append(o.Tars, tarPiece{"control.tar", true, ctl})
 	o.Control = centries
 	for _, e := range centries {
 		o.Stamps = append(o.Stamps, stampObs{"control:" + e.Path, e.MTime})
@@ -793,6 +824,7 @@ func decodeDebLike(o *pkgObs, controlTgz, dataTar []byte, dataKind string) error
 	}
 	hasEnd, aligned = tarTrailer(plain)
 	o.Struct["data_tar_complete"] = hasEnd && aligned
+	o.Tars = append(o.Tars, tarPiece{"data.tar", true, plain})
 	// deb(5): "PAX extensions are not supported" - dpkg rejects a member of type 'x' or 'g'
 	o.Struct["data_tar_without_pax_headers"] = !bytes.ContainsAny(rawTarTypeflags(plain), "xg")
 	o.Payload = entries
@@ -858,6 +890,7 @@ func decodeIPK(b []byte) (*pkgObs, error) {
 	}
 	hasEnd, aligned := tarTrailer(outer)
 	o.Struct["outer_tar_complete"] = hasEnd && aligned
+	o.Tars = append(o.Tars, tarPiece{"ipk", true, outer})
 	for _, e := range entries {
 		o.Members = append(o.Members, member{Name: e.Path, Size: e.Size, MTime: e.MTime, Data: data[e.Path]})
 		o.Stamps = append(o.Stamps, stampObs{"outer:" + e.Path, e.MTime})
@@ -919,6 +952,7 @@ func decodeAPK(b []byte) (*pkgObs, error) {
 		hasEnd, aligned := tarTrailer(m.Plain)
 		o.Members = append(o.Members, member{Name: names[i], Size: int64(len(m.Comp)), Data: m.Comp})
 		o.Struct[names[i]+"_aligned_512"] = aligned
+		o.Tars = append(o.Tars, tarPiece{names[i], names[i] == "data", m.Plain})
 		if names[i] == "data" {
 			o.Struct["data_has_end_marker"] = hasEnd
 		} else {
@@ -1078,6 +1112,7 @@ func decodeArch(b []byte) (*pkgObs, error) {
 	}
 	hasEnd, aligned := tarTrailer(plain)
 	o.Struct["tar_complete"] = hasEnd && aligned
+	o.Tars = append(o.Tars, tarPiece{"pkg.tar", true, plain})
 	for _, e := range entries {
 		o.Stamps = append(o.Stamps, stampObs{"tar:" + e.Path, e.MTime})
 		switch e.Path {
